@@ -19,7 +19,7 @@ RULE = (
     "ceil-chunking gives uneven and empty local shards, history of 3-6 steps with presence masks). Non-trivial = some rank has an empty local shard of "
     "some parameter, or the shards of some parameter have unequal row counts. Distinct = canonical JSON."
 )
-BOUNDS = "R*S <= 4 (quick) / 8 (thorough); numel <= 150 per parameter; <= 6 steps"
+BOUNDS = "R*S <= 4 (quick) / 8 (thorough); numel <= 150 per parameter, up to 20 parameters per group; <= 6 steps"
 ASSUMPTIONS = ["DTensor.from_local(chunk, mesh, [Shard(0)]) with explicit shape/stride reproduces what fully_shard / distribute_tensor hand to the optimizer (cross-checked against distribute_tensor in the thorough tier)",
                "simulator assumptions of C06"]
 NONTRIVIAL_FLOOR = 10
